@@ -115,9 +115,37 @@ def check_cga(res, n, rng, reps):
             cen = c.down(Rd.center)
             if not (near(cen, x, mag(x), 1e-8) and abs(Rd.radius - r) < 1e-8 * r):
                 res.violate('round((c, r)) does not have centre c and radius r', dict(inp, r=r), [cen.value.tolist(), Rd.radius], [x.value.tolist(), r], dict(site, op='round-cr'))
+            # a multi-step history on one object: its radius / dual / centre are read first, then operators are applied and the object
+            # is re-defined; every derived quantity must follow the object's current blade (nothing may be remembered from before)
+            _ = (Rd.radius, Rd.dual, Rd.center)
+            D2 = c.dilation(2.0)(Rd)
+            Tm = c.translation(a)(Rd)
+            ok_d = abs(D2.radius - 2 * r) < 1e-7 * r and near(c.down(D2.center), 2.0 * x, mag(x), 1e-7)
+            ok_t = abs(Tm.radius - r) < 1e-7 * r and near(c.down(Tm.center), x + a, mag(x) + mag(a), 1e-7) \
+                and near(Tm.dual, Tm.mv * L.I, mag(Tm.mv), 1e-9)
+            if not (ok_d and ok_t):
+                res.violate('an operator applied to a round whose radius / dual had been read does not act by the versor product on all derived quantities',
+                            dict(inp, r=r), [D2.radius, Tm.radius], [2 * r, r], dict(site, op='operator-after-read'))
+            x2, r2 = bvec(), float(rng.choice([0.75, 1.5, 4.0]))
+            Rd.from_center_radius(x2, r2)
+            if not (near(c.down(Rd.center), x2, mag(x2), 1e-8) and abs(Rd.radius - r2) < 1e-8 * r2):
+                res.violate('a round re-defined by from_center_radius does not report the new centre and radius', dict(inp, r=r, r2=r2),
+                            [c.down(Rd.center).value.tolist(), Rd.radius], [x2.value.tolist(), r2], dict(site, op='round-redefine'))
+        # the origin written as the zero base vector is a point like any other
+        res.case(('origin', n, r), nontrivial=True)
+        with common.guard(res, 'origin as zero vector', site, inp):
+            z = 0.0 * E[0]
+            N0, N1 = c.null_vector(z), c.null_vector(z)
+            R0 = c.round((z, r))
+            ok = near(N0, c.eo, 1.0, 1e-12) and near(N1, N0, 1.0, 0) and near(c.down(R0.center), z, 1.0, 1e-9) and abs(R0.radius - r) < 1e-8 * r
+            if not ok:
+                res.violate('the origin given as the zero base vector is not treated as the point eo', dict(site, r=r),
+                            [N0.value.tolist()[:8], c.down(R0.center).value.tolist()[:8]], 'eo / centre 0', dict(site, op='origin-zero-vector'))
         # rounds and flats through points
         for k in range(2, n + 2):
             pts = [bvec() for _ in range(k)]
+            if k >= 2 and rng.random() < 0.34:
+                pts[0] = 0.0 * pts[0]           # the origin as one of the defining points
             nulls = [c.up(p) for p in pts]
             W = nulls[0]
             for q in nulls[1:]:
